@@ -106,9 +106,13 @@ def work(chunk, st):
             st.sample(dict(detail, requests=[r['gex_requests'] for r in srv.records if r['gex_requests']][:10]))
 
 
+FAULT_SERVERS = (((1024, 2048, 4096), P.STRICT, 'other'), ((2048, 3072), P.OPENSSH, 'openssh'), ((3072,), P.ROUNDUP, 'other'),
+                 ((3072, 4096), P.OPENSSH, 'openssh'), ((4096,), P.OPENSSH, 'other'), ((1024,), P.OPENSSH, 'openssh'))
+
+
 def fault_tasks(tier):
     out = []
-    for sub, style, banner in (((1024, 2048, 4096), P.STRICT, 'other'), ((2048, 3072), P.OPENSSH, 'openssh'), ((3072,), P.ROUNDUP, 'other')):
+    for sub, style, banner in FAULT_SERVERS:
         def sc(faults, sub=sub, style=style, banner=banner):
             srv = make_server(sub, style, 'both', banner)
             res = H.audit(srv, faults=faults)
@@ -142,6 +146,18 @@ def work_faults(chunk, st):
                     handed |= {b for (_a, _b, _c, b) in r['gex_requests'] if b}
             if entry is not None and entry['size'] is not None and entry['size'] not in handed:
                 st.violation('gexfault:size-never-handed-out', {'moduli': list(sub), 'plan': plan, 'alg': alg, 'reported': entry['size'], 'handed': sorted(handed)})
+            # OpenSSH rule: when the first pass ended on the 2048 fallback answer, the size is the follow-up (2048,3072,4096) probe's
+            # answer; if that very probe was refused / stalled / garbled, there is no size rather than the fallback's 2048.
+            fconn = plan[0][0][1]
+            for r in srv.records:
+                if r.get('negotiated', (None,))[0] != alg or r['index'] != fconn:
+                    continue
+                is_follow = any((a, b, c) == (2048, 3072, 4096) for (a, b, c, _d) in r['gex_requests'])
+                fk, fmsg = plan[0][1][0], plan[0][0][2]
+                # the group never arrives: connection cut / garbled at the banner, KEXINIT or group message; or the group message mistyped
+                broke = (fk in ('trunc_close', 'trunc_stall', 'reset', 'garbage') and fmsg <= 2) or (fk == 'type' and fmsg == 2)
+                if banner == 'openssh' and is_follow and broke and entry is not None and entry['size'] is not None:
+                    st.violation('gexfault:size-reported-although-follow-up-probe-failed', {'moduli': list(sub), 'plan': plan, 'alg': alg, 'reported': entry['size']})
 
 
 def run(tier, seed):
